@@ -73,6 +73,12 @@ def run(chk, tier, seed, replay=None):
                         break
                 else:
                     continue
+            if rng.random() < 0.5:
+                # test ids with characters at which text (but not the report
+                # protocol) would break a line
+                for k, (tid, t) in enumerate(w['tests'].items()):
+                    if 'name' not in t and rng.random() < 0.3:
+                        t['name'] = 'test_%s%s%d' % (tid, rng.choice(['\x0c', '\x0b', '\x85', '\u2028', '\x1c']), k)
             if rng.random() < 0.3:
                 # shutdown noise on the child's fd 2 after its report
                 w.setdefault('env', {})['fd2_at_exit'] = ['bye', 'Exception ignored in: <x>']
